@@ -17,12 +17,11 @@ PYTHONPATH=$W /venv/bin/python -W ignore $OUT/demo.py > $OUT/demo_changed.log 2>
 echo "demo clean rc=$RC0 changed rc=$RC1"
 RES=""
 for c in $CID $EXTRA; do
-  ONSAGER_REPO=$W timeout 2400 /verif/check $c --tier ${TIER:-quick} > $OUT/check_$c.log 2>&1; rc=$?
+  VERIF_EVIDENCE_DIR=$OUT/evidence VERIF_REPLAY_DIR=$OUT/replays ONSAGER_REPO=$W timeout 2400 /verif/check $c --tier ${TIER:-quick} > $OUT/check_$c.log 2>&1; rc=$?
   nv=$(grep -c "^VIOLATION" $OUT/check_$c.log)
   keys=$(grep "^\[$c\] violation" $OUT/check_$c.log | cut -c1-160 | sort | uniq -c | sort -rn | head -3 | tr '\n' ';')
   echo "check $c rc=$rc violations=$nv :: $keys"
   RES="$RES $c:rc=$rc:nv=$nv"
 done
 echo "{\"demo_clean_rc\": $RC0, \"demo_changed_rc\": $RC1, \"checks\": \"$RES\", \"tier\": \"${TIER:-quick}\", \"base\": \"$(git -C /repo log --format=%h -1)\"}" > $OUT/result.json
-# evidence/replays written by these runs belong to the mutated tree: restore evidence from git
-cd /verif && git checkout -- evidence 2>/dev/null
+rm -rf $OUT/replays/*/violation_[1-9]*.json 2>/dev/null  # keep one replay per run as the record
